@@ -1,19 +1,46 @@
-NMAX = 3
-BOUND = 'pre-state: <= %d unacknowledged stanzas with consecutive keys ending at lastOut, lastOut and lastIn < 2^31, enabled arbitrary; one event' % NMAX
-def I(e, **kw):
-    d = dict(name=e, entry='h_' + e, unwind=6, timeout_s=240, mem_gb=4, tiers=('quick', 'thorough'), bound=BOUND)
+# C09 - stream management accounting: single inductive steps (see h.cpp / h_c2s.cpp / c09_world.h)
+def bound(nmax):
+    return ('pre-state: <= %d unacknowledged stanzas with consecutive keys ending at lastOut, lastOut and lastIn < 2^31, enabled arbitrary '
+            '(unless the event fixes it), h / element names / socket results arbitrary; exactly one event' % nmax)
+def I(e, nmax, tiers, **kw):
+    d = dict(name=e + ('' if 'quick' in tiers else '_n%d' % nmax), entry='h_' + e, unwind=nmax + 3, timeout_s=240, mem_gb=4 if nmax <= 4 else 8, tiers=tiers,
+             bound=bound(nmax), cdefs={'MCAP': nmax + 1})
     d.update(kw); return d
-STEPS = ['ack_enabled', 'ack_disabled', 'setack', 'resume', 'enable_keep', 'enable_reset', 'request', 'inbound', 'send', 'send_compat', 'session_closed', 'reset_cache']
+STEPS = ['initial', 'ack_enabled', 'ack_disabled', 'setack', 'resume', 'enable_keep', 'enable_reset', 'request', 'inbound', 'send', 'send_compat', 'session_closed', 'reset_cache']
 C2S = ['resumed', 'resume_failed', 'enabled', 'request_resume']
+SM = ['src/base/QXmppStreamManagement.cpp', 'src/base/QXmppPacket.cpp']
+MODELS = ['qt_core.c', 'qt_dom.c', 'models.c']
+LB = {r'World8checkLog': 10, r'^h_request$': 10, r'^h_close_send_enable$': 10}   # harness loops over the socket log (capacity 8)
+def groups(nmax, tiers, sfx):
+    return [
+        dict(name='step' + sfx, harness='h.cpp', tus=SM, models=MODELS, shadow_task=True, cxxdefs={'VP_NMAX': nmax}, loop_bounds=LB,
+             instances=[I(e, nmax, tiers) for e in STEPS] + ([I(e, nmax, ('thorough',), timeout_s=200, timeout_thorough_s=600, mem_gb=8) for e in ['send_then_ack', 'close_send_enable']] if 'quick' in tiers else [])),
+        dict(name='c2s' + sfx, harness='h_c2s.cpp', tus=SM + ['src/client/QXmppOutgoingClient.cpp', 'src/base/QXmppUtils.cpp'], models=MODELS, shadow_task=True,
+             cxxdefs={'VP_NMAX': nmax}, loop_bounds=LB, instances=[I('c2s_' + e, nmax, tiers) for e in C2S]),
+    ]
 SPEC = dict(
     property='C09',
-    groups=[
-        dict(name='step', harness='h.cpp', tus=['src/base/QXmppStreamManagement.cpp', 'src/base/QXmppPacket.cpp'],
-             models=['qt_core.c', 'qt_dom.c', 'models.c'], shadow_task=True, cxxdefs={'VP_NMAX': NMAX},
-             instances=[I(e) for e in STEPS]),
-        dict(name='c2s', harness='h_c2s.cpp', tus=['src/base/QXmppStreamManagement.cpp', 'src/base/QXmppPacket.cpp', 'src/client/QXmppOutgoingClient.cpp', 'src/base/QXmppUtils.cpp'],
-             models=['qt_core.c', 'qt_dom.c', 'models.c'], shadow_task=True, cxxdefs={'VP_NMAX': NMAX},
-             instances=[I('c2s_' + e) for e in C2S]),
+    groups=groups(4, ('quick', 'thorough'), '') + groups(6, ('thorough',), '6'),
+    bounds=[
+        'one event per instance, applied to an ARBITRARY pre-state satisfying the representation invariant INV: the unacknowledged store holds n <= 4 (quick) / n <= 6 (thorough groups *6) stanzas with consecutive keys lastOut-n+1..lastOut, n <= lastOut, none of them reported yet; enabled flag arbitrary; lastOut, lastIn < 2^31',
+        'every step asserts INV again for its post-state and h_initial proves INV for a fresh manager, so by induction the per-event claims hold along every event sequence that never has more than 4 (6) unacknowledged stanzas pending',
+        'ack / resumed handled-count h: any 32-bit value (stale, exact, beyond); inbound element: tag of <= 8 arbitrary UTF-16 units, namespace jabber:client | urn:xmpp:sm:3 | <= 2 arbitrary units; every socket write succeeds or fails nondeterministically; previd / id strings <= 2 arbitrary units',
+        'thorough only: two / three consecutive events composed in one run (send_then_ack, close_send_enable)',
+        'socket log capacity 8 writes, QMap model capacity n+1 entries (both asserted as model limits)',
     ],
-    bounds=[], assumptions=[], outside=[],
+    assumptions=[
+        'QXmppTask/QXmppPromise are the assume-guarantee shadow (models/shadow/task_shadow.h; its contract is established for the real classes by C13); the shadow itself asserts that no promise is finished twice = "no report fires twice"',
+        'QMap<unsigned,QXmppPacket> is a class-level model (ordered array with value semantics, elements copied/destroyed by the REAL QXmppPacket copy constructor/destructor) installed over the inline QMap members; QXmppPacket itself (QXmppPacket.cpp) is real',
+        'packet payloads are opaque one-byte blocks carrying a ghost id; XmppSocket::sendData is a ghost log with a nondeterministic result (FakeSock subclass in the harness, XmppSocket constructor modelled empty)',
+        'serializeXml<SmAck|SmRequest|SmResume|SmEnable> run the REAL toXml into the writer tree model and the document is classified structurally (<a h=N/>, <r/>, <resume h=N previd/>, <enable/>); Qt text encoding and number formatting/parsing are trusted (abstract number strings)',
+        'c2s group: QXmppOutgoingClient / QXmppOutgoingClientPrivate are raw storage in which only d, d->socket and d->streamAckManager are alive; QXmppLoggable::logMessage is empty; conditionFromString (error condition inside <failed/>) returns an arbitrary value',
+    ],
+    outside=[
+        'wrap-around of the 32-bit counters at 2^32 (XEP-0198 wraps, the code does not): pre-states are limited to counters < 2^31',
+        'more than 4 (6) unacknowledged stanzas pending at once; general event histories beyond the inductive argument and the two composed runs of the thorough tier',
+        'the namespace of inbound message/presence/iq elements is not distinguished (the reference counts by tag name, as the property text does)',
+        'ack requests <r/> sent by the client, ping timers, and whether <r/> is answered while stream management is inactive are mechanisms outside the statement: no assertion depends on them',
+        'C2sStreamManager: the SASL2 / Bind2 inline variants (onSasl2Success, onBind2Bound) call the same onResumed/onEnabled and are not run separately; the location attribute of <enabled/> (setResumeAddress, QUrl) is left empty',
+        'who calls onSessionClosed / resetCache / enableStreamManagement in QXmppOutgoingClient (connection-loss handling) belongs to C10',
+    ],
 )
